@@ -473,6 +473,11 @@ impl StreamInfo {
         channels: usize,
         bits_per_sample: usize,
     ) -> Result<Self, VerifyError> {
+        // The fields are narrower than `usize`; values that would only fit after
+        // truncation are rejected here (the same ranges as in `verify`).
+        verify_range!("sample_rate", sample_rate, ..=96_000)?;
+        verify_range!("channels", channels, 1..=8)?;
+        verify_bps!("bits_per_sample", bits_per_sample)?;
         let ret = Self {
             min_block_size: u16::MAX,
             max_block_size: 0,
